@@ -804,6 +804,66 @@ def sites_func(rp, rng, variants=FUNC_VARIANTS, per_slot=None):
     return out
 
 
+def sites_func_nested(rp, rng):
+    """a sub-expression of the BODY of a generated top-level function becomes a second function, declared in front of
+    the first and called from its body (`let fn_2 = pa_3 -> (pa_3 + 1)`, `let fn_1 = pa_1 -> ((fn_2 pa_1) * 2)`):
+    a function that refers to another declaration.  Every parameter of the outer function that occurs in the
+    sub-expression is passed on as an argument (the inner body must be closed); beta-reducing inner then outer call
+    gives the original expression back (checked here)."""
+    out = []
+    for di, d in enumerate(rp.decls):
+        if not isinstance(d, Func) or d.body is None:
+            continue
+        cands = [(p, n) for p, n in subterms(d.body) if n[0] in ("bin", "neg", "not", "isnull", "case")
+                 and not any(m[0] in ("call", "pipe", "wcall") for _, m in subterms(n))]
+        if not cands:
+            continue
+        path, node = rng.choice(cands)
+        ppaths = [p for p, n in subterms(node) if n[0] == "param"]
+        if not ppaths:
+            leaves = []
+            for p, n in subterms(node):
+                if n[0] == "col" or (n[0] == "lit" and n[1] is not None):
+                    leaves.append(p)
+            if not leaves:
+                continue
+            ppaths = [rng.choice(leaves)]
+        q = rp.clone()
+        dd = q.decls[di]
+        body, params, args = node, [], []
+        for p in ppaths:
+            pn = q.new("pa")
+            args.append(node_at(node, p))
+            body = replace_at(body, p, ("param", pn))
+            params.append(pn)
+        if subst_params(body, dict(zip(params, args))) != node:
+            raise AssertionError("nested abstraction is not invertible")
+        fname = q.new("fn")
+        inner = Func(fname, [(pn, None) for pn in params], body=body)
+        dd.body = replace_at(dd.body, path, ("call", fname, [], args))
+        q.decls.insert(di, inner)
+        lab = "func-nested@%s" % dd.name
+        q.trace = rp.trace + [lab]
+        out.append((lab, q))
+    return out
+
+
+def directed_program(steps, ordered, final_cols):
+    """hand-written base program for a directed family: steps are structured RSteps (filter / derive / select / sort), printed both
+    ways by the same code as every other step (PRQL text, Rel term); frames are left unknown (None)"""
+    ps = []
+    for s in steps:
+        c = s.coq()
+        if c is None:
+            raise ValueError("directed step is not expressible: %s" % s.prql())
+        info = {}
+        if s.kind == "sort":
+            info["keys"] = list(s.keys)
+        ps.append(P.Step(s.kind, s.prql(), c, **info))
+    ps[-1].info["final"] = True
+    return P.Program(ps, ordered, list(final_cols), {"order": None, "key_pos": None, "outer_right": False})
+
+
 TRFUNC_VARIANTS = ["pos", "zero", "named-omit", "named-pass", "module"]
 
 
@@ -1030,7 +1090,7 @@ def random_chain(rp, rng, length):
 
 # ------------------------------------------------------------------------------ two references to one let-table
 
-def two_ref_pairs(pg, rng):
+def two_ref_pairs(pg, rng, force_rest=None):
     """pg: prog.Program with final select (frame = pg.final_cols, unqualified, distinct names).
     Returns [(label, base prql, rewritten RProg, coq expression template, ordered, final_cols)].  The base
     spells the prefix out twice; the rewritten form names it once and refers to it twice.  The Coq template
@@ -1054,7 +1114,7 @@ def two_ref_pairs(pg, rng):
                   ["n_all", "s_0"]))
     rests.append((["group {%s} (aggregate {n_all = count this})" % k],
                   ["TGroupAgg [%d%%N] [(Some %d%%N, ACount, ELit (VInt 1))]" % (P.nid(k), P.nid("n_all"))], [k, "n_all"]))
-    rtxt, rcoq, fcols = rng.choice(rests)
+    rtxt, rcoq, fcols = rng.choice(rests) if force_rest is None else rests[force_rest]     # force_rest: 0 nothing, 1 filter, 2 aggregate, 3 group
     base = "\n".join(pre_lines + ["append (%s)" % pre_txt] + rtxt)
     q = from_program(pg)
     name = q.new("r")
